@@ -131,14 +131,14 @@ func genProgram(seed int64, flavour string, drained bool, writers int, ntx int) 
 	}
 	hugeLen := 0
 	if flavour == "hugeval" {
-		// one transaction of 4-7 keys carries ONE very large value (just over 64 KiB or just over 1 MiB,
-		// both legal below the default 4 MiB memtable threshold): a wal record longer than any 16-bit
+		// one transaction of 4-7 keys carries ONE very large value (just over 1 MiB) and the next one a
+		// value just over 64 KiB (both legal below the default 4 MiB memtable threshold): a wal record longer than any 16-bit
 		// length, read buffer or "sanity" limit of the recovery path. Only one, because every crash
 		// point ships the recovered state between processes.
 		minKeys, maxKeys = 4, 7
 		p.Cfg.MemtableByteThreshold = []int{30000, 4 << 20}[r.Intn(2)]
 		p.Cfg.DataBlockByteThreshold = 4096
-		hugeLen = []int{65536 + r.Intn(512), 1<<20 + r.Intn(4096)}[r.Intn(2)]
+		hugeLen = 1<<20 + r.Intn(4096)
 	}
 	p.Txns = make([][]crashTxn, writers)
 	for w := 0; w < writers; w++ {
@@ -171,9 +171,13 @@ func genProgram(seed int64, flavour string, drained bool, writers int, ntx int) 
 					t.Writes[k] = fmt.Sprintf("w%d.t%d.%d-%s", w, i, j, strings.Repeat("p", valPad()))
 				}
 			}
-			if hugeLen > 0 && w == 0 && i == 1 {
+			if hugeLen > 0 && w == 0 && (i == 1 || i == 2) {
 				k := window[r.Intn(len(window))]
-				t.Writes[k] = fmt.Sprintf("w%d.t%d.huge-%s", w, i, strings.Repeat("H", hugeLen))
+				n := hugeLen
+				if i == 2 {
+					n = 65536 + r.Intn(512)
+				}
+				t.Writes[k] = fmt.Sprintf("w%d.t%d.huge-%s", w, i, strings.Repeat("H", n))
 			}
 			p.Txns[w] = append(p.Txns[w], t)
 		}
@@ -1131,6 +1135,7 @@ func genCrash(focus, tier string, seed int64) []core.Case {
 			add(1, spec{"plain", 0, 2, 16, 8, 2})
 			add(1, spec{"closepending", 0, 1, 14, 8, 1})
 			add(1, spec{"restarts", 1, 1, 24, 8, 1})
+			add(1, spec{"hugeval", 1, 1, 4, 8, 1})
 			seqEvery = 24
 		} else {
 			add(6, spec{"plain", 1, 1, 40, 16, 1})
@@ -1140,6 +1145,7 @@ func genCrash(focus, tier string, seed int64) []core.Case {
 			add(4, spec{"closepending", 0, 1, 24, 16, 1})
 			add(3, spec{"bigtxn", 1, 1, 24, 16, 1})
 			add(4, spec{"restarts", 1, 1, 40, 16, 1})
+			add(2, spec{"hugeval", 1, 1, 6, 16, 1})
 			seqEvery, depth3 = 12, 1
 		}
 	case "C04":
@@ -1169,12 +1175,14 @@ func genCrash(focus, tier string, seed int64) []core.Case {
 			add(1, spec{"multikey", 1, 1, 12, 8, 1})
 			add(1, spec{"bigtxn", 1, 1, 10, 8, 1})
 			add(1, spec{"plain", 0, 1, 16, 8, 2})
+			add(1, spec{"hugeval", 1, 1, 4, 8, 1})
 		} else {
 			add(8, spec{"plain", 1, 1, 30, 16, 1})
 			add(3, spec{"multikey", 1, 1, 24, 16, 1})
 			add(3, spec{"deep", 1, 1, 36, 16, 1})
 			add(5, spec{"plain", 0, 1, 30, 16, 1})
 			add(3, spec{"bigtxn", 1, 1, 16, 16, 1})
+			add(2, spec{"hugeval", 1, 1, 5, 16, 1})
 		}
 	}
 	r := rand.New(rand.NewSource(seed*2038074743 + int64(focus[2])))
